@@ -57,7 +57,7 @@ macro "tr_fin" : tactic => `(tactic| (
   try tr_abstract
   tr_casts
   tr_consts
-  try simp only [Tr.asU64, Tr.asI64, Tr.absI64, Tr.absI32, Tr.uabs, Tr.cmpInt] at *
+  try simp only [Tr.asU64, Tr.asI64, Tr.absI64, Tr.absI32, Tr.absI, Tr.uabs, Tr.signum, Tr.cmpInt] at *
   tr_split
   all_goals try simp only [Prod.mk.injEq, Except.ok.injEq, Except.error.injEq, Option.some.injEq, reduceCtorEq,
     decide_eq_decide, decide_eq_true_eq, true_and, and_true] at *
@@ -70,7 +70,7 @@ macro "tr_model" : tactic => `(tactic| simp only [Timestamp.new, Timestamp.extra
   Time.addIntervalDt, Time.subIntervalDt, Time.fromIntervalDt, Time.tryFromUsecs, Time.hour, Timestamp.hour, IntervalYM.negate, IntervalYM.extract,
   IntervalYM.tryFromMonths, IntervalDT.negate, IntervalDT.extract, IntervalDT.fromDhmsUnchecked, IntervalDT.tryFromUsecs,
   Date.fromYmdUnchecked, Date.subDate, Date.dayOfWeek, Date.tryFromDays, OracleDate.new, OracleDate.fromTimestamp,
-  OracleDate.tryFromUsecs, checkedI32, checkedI64, fitsI32, fitsI64, I32_MIN, I32_MAX, I64_MIN, I64_MAX] at *)
+  OracleDate.tryFromUsecs, OracleDate.subDays, Timestamp.subDays, checkedI32, checkedI64, fitsI32, fitsI64, I32_MIN, I32_MAX, I64_MIN, I64_MAX] at *)
 
 /-- Evaluate closed calls of `date2julian` (a constant written as a call). -/
 macro "tr_eval" : tactic => `(tactic| simp only [date2julian, rdiv, Int.reduceAdd, Int.reduceSub, Int.reduceMul,
@@ -83,11 +83,13 @@ macro "tr_deep" : tactic => `(tactic| (
     | with_reducible rfl
     | dsimp only at *
     | split
+    | tr_split_hyp
+    | simp only [reduceCtorEq, Except.ok.injEq, Except.error.injEq, Option.some.injEq] at *
     | tr_model
     | tr_consts1
     | tr_casts1
     | tr_abstract1
-    | simp only [Tr.asU64, Tr.asI64, Tr.absI64, Tr.absI32, Tr.uabs, Tr.cmpInt] at *
+    | simp only [Tr.asU64, Tr.asI64, Tr.absI64, Tr.absI32, Tr.absI, Tr.uabs, Tr.signum, Tr.cmpInt] at *
     | tr_eval)
   all_goals try simp only [Prod.mk.injEq, Except.ok.injEq, Except.error.injEq, Option.some.injEq, reduceCtorEq,
     decide_eq_decide, decide_eq_true_eq, true_and, and_true] at *
@@ -584,6 +586,98 @@ theorem extract_day_range (d : Int) (h0 : -2440588 ≤ d) : 0 ≤ (Date.extract 
     (hb0 : -2147483648 ≤ b) (hb1 : b ≤ 2147483647) :
     Tr.IntervalYM.cmp a b = Tr.cmpInt a b := by
   unfold Tr.IntervalYM.cmp
+  tr_auto
+
+/-! ## The functions that go through `f64` (phase 3): equal to the model's soft-float computation for EVERY double.
+    No decision procedure exists for floats: the float parts must match syntactically (after unfolding and rewriting the
+    callees); the integer parts around them are handled as everywhere else. -/
+
+@[tr_eq] theorem IntervalYM.mul_f64_eq (v : Int) (x : F64) :
+    Tr.IntervalYM.mul_f64 v x = IntervalYM.mulF64 v x := by
+  unfold Tr.IntervalYM.mul_f64 IntervalYM.mulF64
+  tr_auto
+
+@[tr_eq] theorem IntervalYM.div_f64_eq (v : Int) (x : F64) :
+    Tr.IntervalYM.div_f64 v x = IntervalYM.divF64 v x := by
+  unfold Tr.IntervalYM.div_f64 IntervalYM.divF64
+  tr_auto
+
+@[tr_eq] theorem IntervalDT.mul_f64_eq (v : Int) (x : F64) :
+    Tr.IntervalDT.mul_f64 v x = IntervalDT.mulF64 v x := by
+  unfold Tr.IntervalDT.mul_f64 IntervalDT.mulF64
+  tr_auto
+
+@[tr_eq] theorem IntervalDT.div_f64_eq (v : Int) (x : F64) :
+    Tr.IntervalDT.div_f64 v x = IntervalDT.divF64 v x := by
+  unfold Tr.IntervalDT.div_f64 IntervalDT.divF64
+  tr_auto
+
+@[tr_eq] theorem IntervalDT.second_eq (v : Int) :
+    Tr.IntervalDT.second v = some (IntervalDT.second v) := by
+  unfold Tr.IntervalDT.second IntervalDT.second
+  tr_auto
+
+@[tr_eq] theorem Time.mul_f64_eq (t : Int) (x : F64) :
+    Tr.Time.mul_f64 t x = IntervalDT.mulF64 t x := by
+  unfold Tr.Time.mul_f64
+  tr_auto
+
+@[tr_eq] theorem Time.div_f64_eq (t : Int) (x : F64) :
+    Tr.Time.div_f64 t x = IntervalDT.divF64 t x := by
+  unfold Tr.Time.div_f64
+  tr_auto
+
+@[tr_eq] theorem Time.second_eq (t : Int) :
+    Tr.Time.second t = some (Time.second t) := by
+  unfold Tr.Time.second Time.second
+  tr_auto
+
+@[tr_eq] theorem Timestamp.add_days_eq (ts : Int) (x : F64) :
+    Tr.Timestamp.add_days ts x = Timestamp.addDays ts x := by
+  unfold Tr.Timestamp.add_days Timestamp.addDays
+  tr_auto
+
+@[tr_eq] theorem Timestamp.sub_days_eq (ts : Int) (x : F64) :
+    Tr.Timestamp.sub_days ts x = Timestamp.subDays ts x := by
+  unfold Tr.Timestamp.sub_days Timestamp.subDays
+  tr_auto
+
+@[tr_eq] theorem Timestamp.second_eq (ts : Int) :
+    Tr.Timestamp.second ts = some (Time.second (Timestamp.time ts)) := by
+  unfold Tr.Timestamp.second
+  tr_auto
+
+@[tr_eq] theorem OracleDate.add_days_eq (od : Int) (x : F64) :
+    Tr.OracleDate.add_days od x = OracleDate.addDays od x := by
+  unfold Tr.OracleDate.add_days OracleDate.addDays OracleDate.roundToSecond
+  simp only [bind, Except.bind, pure, Except.pure, tr_eq]
+  -- the float computation is the same term on both sides: name its result and look at the integer rounding
+  generalize Timestamp.addDays od x = y
+  cases y with
+  | error e => rfl
+  | ok v =>
+    dsimp only
+    -- `Ok(f(a)?)` against `f(b)`: in both cases of `f(a)` it remains to show `a = b`, an integer goal
+    split <;> (rename_i heq; rw [← heq]; apply congrArg; tr_auto)
+
+@[tr_eq] theorem OracleDate.sub_days_eq (od : Int) (x : F64) :
+    Tr.OracleDate.sub_days od x = OracleDate.subDays od x := by
+  unfold Tr.OracleDate.sub_days OracleDate.subDays
+  tr_auto
+
+@[tr_eq] theorem OracleDate.sub_date_eq (a b : Int) :
+    Tr.OracleDate.sub_date a b = OracleDate.subDate a b := by
+  unfold Tr.OracleDate.sub_date OracleDate.subDate
+  tr_auto
+
+@[tr_eq] theorem Timestamp.oracle_add_days_eq (ts : Int) (x : F64) :
+    Tr.Timestamp.oracle_add_days ts x = OracleDate.addDays (OracleDate.fromTimestamp ts) x := by
+  unfold Tr.Timestamp.oracle_add_days
+  tr_auto
+
+@[tr_eq] theorem Timestamp.oracle_sub_days_eq (ts : Int) (x : F64) :
+    Tr.Timestamp.oracle_sub_days ts x = OracleDate.subDays (OracleDate.fromTimestamp ts) x := by
+  unfold Tr.Timestamp.oracle_sub_days
   tr_auto
 
 end SqlDt.TrEq
